@@ -311,6 +311,76 @@ class Runner:
         self.LiquidError = LiquidError
         self.Req = RequiredBlockError
         self.TIE = TemplateInheritanceError
+        from liquid2 import BlockNode as _TemplateBlock
+        from liquid2 import Node as _Node
+        from liquid2 import Tag as _Tag
+        from liquid2.shopify.tags.tablerow_tag import TablerowTag
+
+        # a block tag written the way docs/custom_tags.md shows, once with children()
+        # and once without it ("can be omitted" when static analysis is not used)
+        class BoxNode(_Node):
+            __slots__ = ("block",)
+
+            def __init__(self, token, block):  # noqa: ANN001
+                super().__init__(token)
+                self.block = block
+                self.blank = block.blank
+
+            def render_to_output(self, context, buffer):  # noqa: ANN001
+                return self.block.render(context, buffer)
+
+            async def render_to_output_async(self, context, buffer):  # noqa: ANN001
+                return await self.block.render_async(context, buffer)
+
+            def children(self, static_context, *, include_partials=True):  # noqa: ANN001, ARG002
+                yield self.block
+
+        class BoxNoChildrenNode(_Node):
+            __slots__ = ("block",)
+
+            def __init__(self, token, block):  # noqa: ANN001
+                super().__init__(token)
+                self.block = block
+                self.blank = block.blank
+
+            def render_to_output(self, context, buffer):  # noqa: ANN001
+                return self.block.render(context, buffer)
+
+            async def render_to_output_async(self, context, buffer):  # noqa: ANN001
+                return await self.block.render_async(context, buffer)
+
+        def make_tag(name: str, node_cls):  # noqa: ANN001
+            class BoxTag(_Tag):
+                block = True
+                node_class = node_cls
+                end_block = frozenset([f"end{name}"])
+
+                def parse(self, stream):  # noqa: ANN001
+                    token = stream.current()
+                    block_token = stream.next()
+                    blk = _TemplateBlock(
+                        block_token, self.env.parser.parse_block(stream, end=self.end_block))
+                    stream.expect_tag(f"end{name}")
+                    return self.node_class(token, blk)
+
+            return BoxTag
+
+        BoxTag = make_tag("box", BoxNode)
+        BoxNcTag = make_tag("boxnc", BoxNoChildrenNode)
+        _BaseEnv = Environment
+
+        class ExtEnv(_BaseEnv):
+            """Default environment + the optional tablerow tag + the two custom tags."""
+
+            def setup_tags_and_filters(self):  # noqa: ANN202
+                super().setup_tags_and_filters()
+                self.tags["tablerow"] = TablerowTag(self)
+                self.tags["box"] = BoxTag(self)
+                self.tags["boxnc"] = BoxNcTag(self)
+
+        Environment = ExtEnv
+        self.Environment = ExtEnv
+
         class NoSupEnv(Environment):
             suppress_blank_control_flow_blocks = False
 
@@ -325,6 +395,7 @@ class Runner:
         self.standalone_dc = False
         self.standalone_participated = False
         self.case_no = 0
+        self._in_boxnc_probe = False
         self.style_cur: Any = None
         self.esc_cur = False
         self.what_prefix = ""
@@ -513,6 +584,22 @@ class Runner:
             what = self.refine(bad[m0], prog, entry, data, obs[m0])
         if len(bad) < len(modes) or len(set(bad.values())) > 1:
             what += "@" + ",".join(m for m in modes if m in bad)
+        if not self._in_boxnc_probe and any(
+                it[0] == "boxnc" for items in prog.values() for it, _ in M.walk(items)):
+            # counterfactual: the same program with the custom tag that DOES report its
+            # children; if that one is right, the nodes were hidden by the missing children()
+            swapped = copy.deepcopy(prog)
+            for items in swapped.values():
+                for it, _ in M.walk(items):
+                    if it[0] == "boxnc":
+                        it[0] = "box"
+            self._in_boxnc_probe = True
+            try:
+                w2, _, _ = self.evaluate(swapped, entry, data, esc)
+            finally:
+                self._in_boxnc_probe = False
+            if w2 is None:
+                what = "inheritance-nodes-inside-custom-tag-without-children-invisible"
         return self.what_prefix + what, E, obs
 
     def refine_esc(self, what: str, prog: dict, entry: str, data: dict, A: tuple) -> str:
@@ -744,24 +831,19 @@ class Runner:
             ctx.count("rel_roots_block_in_loop")
         if cls is None:
             return None
+        first_bad = next(k for k, a in obs.items() if a != obs["direct/sync"])
+        # the mechanism is named on the ORIGINAL failing root, by knocking stateful
+        # features out one at a time (bounded: <= 13 cheap re-checks), never by how far
+        # the witness minimiser happened to get
+        key = f"relation:{cls}:{self._rel_classify(root, first_bad)}"
         keys = self.minimised.setdefault("rel", [])
         wroot, wobs = root, obs
-        if len(keys) < 30:
-            first_bad = next(k for k, a in obs.items() if a != obs["direct/sync"])
+        if len(keys) < 30:  # shrink the witness for the first failures of a shard only
+            keys.append(key)
             small = self._rel_minimise(root, first_bad)
             c2, o2 = self._rel_eval(small)
-            if c2 == cls:
+            if c2 == cls and self._rel_classify(small, first_bad) == key.rsplit(":", 1)[1]:
                 wroot, wobs = small, o2
-            msrc = rel_source(wroot)
-            feats = [f.replace("{% ", "").replace(": ", "-") for f in REL_FEATURES if f in msrc]
-            if "break" in feats or "continue" in feats:
-                feats = ["loop-interrupt"]  # output written before break/continue is lost
-            elif "parentloop" in feats:
-                feats = ["parentloop"]
-            key = f"relation:{cls}:{'+'.join(feats) or 'plain'}"
-            keys.append(key)
-        else:
-            key = f"relation:{cls}:unminimised"
         ref = wobs["direct/sync"]
         diff = {k: a for k, a in wobs.items() if a != ref}
         descr = f"direct render {ref[:2]!r}; differing: " + "; ".join(
@@ -773,6 +855,28 @@ class Runner:
             "first_differing_variant": vs.get(k0, {}), "observed": {k: list(a) for k, a in wobs.items()},
         })
         return key
+
+    def _rel_classify(self, root: dict, which: str) -> str:
+        """Which stateful features does the failure of observation *which* NEED?
+        Features are removed one after the other (all fragments using the feature);
+        a removal that leaves the failure in place is kept, one that makes the relation
+        hold again is undone: what remains are the necessary features."""
+        cur = root
+        need: list[str] = []
+        for f in REL_FEATURES:
+            if f not in rel_source(cur):
+                continue
+            cand = _rel_knockout(cur, f)
+            if rel_source(cand) != rel_source(cur) and self._rel_still(cand, which):
+                cur = cand
+            else:
+                need.append(f.replace("{% ", "").replace(": ", "-"))
+        if "break" in need or "continue" in need:
+            return "loop-interrupt"  # output written before break/continue is lost
+        if "parentloop" in need:
+            return "parentloop"
+        # nothing stateful is needed: the plain structure (wrappers, nesting) fails
+        return "+".join(need) or "plain"
 
     def _rel_minimise(self, root: dict, which: str, max_tests: int = 70) -> dict:
         tests = 0
@@ -1647,7 +1751,9 @@ def _fam_blank(r: Runner, spec: dict, ctx: Ctx) -> None:
 # ---------------------------------------------------------------------------
 
 CONTAINERS = ("cap0", "cap1", "cap2", "cap-nested", "cap-in-if", "cap-in-for", "mac0", "mac1",
-              "mac2", "with", "liquid", "comment", "hash-comment", "raw", "cap-in-with")
+              "mac2", "with", "liquid", "comment", "hash-comment", "raw", "cap-in-with",
+              "tablerow", "custom-tag", "custom-tag-no-children", "unless", "case", "for",
+              "if", "tablerow-in-custom-tag")
 CONT_PLACES = ("root-top", "root-outer-block", "mid-override", "leaf-override")
 CONT_OVERRIDES = ("none", "leaf-text", "leaf-super", "mid-super+leaf-super")
 CONT_HIDDEN = ("none", "dup", "extends2")
@@ -1674,6 +1780,22 @@ def _contain(inner: list, kind: str) -> list:
         return [["mac", "m", inner], *[["call", "m"] for _ in range(int(kind[3]))]]
     if kind == "with":
         return [["with", "q", "d", inner]]
+    if kind == "tablerow":
+        return [["trow", "i", 2, inner]]
+    if kind == "custom-tag":
+        return [["box", None, None, inner]]
+    if kind == "custom-tag-no-children":
+        return [["boxnc", None, None, inner]]
+    if kind == "tablerow-in-custom-tag":
+        return [["box", None, None, [["trow", "i", 1, inner]]]]
+    if kind == "unless":
+        return [["unless", "no", None, inner]]
+    if kind == "case":
+        return [["case", "d", "D", inner]]
+    if kind == "for":
+        return [["for", "i", 2, inner]]
+    if kind == "if":
+        return [["if", "yes", inner]]
     if kind == "liquid":
         return [[*it, "liquid"] if it[0] == "b" else it for it in inner]
     if kind == "comment":
@@ -1808,6 +1930,26 @@ def rel_source(root: dict) -> str:
     return "".join(out)
 
 
+def _rel_knockout(root: dict, feature: str) -> dict:
+    """root without any fragment that uses *feature* (a capture wrapper counts)."""
+    r2 = copy.deepcopy(root)
+    r2["pre"] = [x for x in r2["pre"] if feature not in x]
+    elems = []
+    for el in r2["elems"]:
+        if el["k"] == "f":
+            if feature not in el["s"]:
+                elems.append(el)
+            continue
+        el["body"] = [x for x in el["body"] if feature not in x]
+        if el.get("inner"):
+            el["inner"]["body"] = [x for x in el["inner"]["body"] if feature not in x]
+        if feature == "capture" and el["wrap"] == "cap2":
+            el["wrap"] = "none"
+        elems.append(el)
+    r2["elems"] = elems
+    return r2
+
+
 def rel_block_names(root: dict) -> list[str]:
     ns = []
     for el in root["elems"]:
@@ -1852,6 +1994,74 @@ def _fam_rel(r: Runner, spec: dict, ctx: Ctx) -> None:
 
 
 # ---------------------------------------------------------------------------
+# break / continue raised in a parent block and crossing block.super
+# ---------------------------------------------------------------------------
+
+INTR_MIDS = ("none", "absent", "pass", "wrap-after", "own-interrupt", "twice")
+INTR_LEAVES = ("loop", "loop+after", "twice-per-iteration", "nested-loops", "root-loop",
+               "loop-then-loop")
+
+
+def intr_cases() -> Iterator[tuple[dict, str, str]]:
+    """The parent block's body STARTS with `{% if x == K %}{% break|continue %}{% endif %}`
+    (nothing written before it in any body reached through block.super, which keeps clear
+    of the known loss of buffered text); the overriding block loops and calls block.super
+    inside the loop, again in later iterations and after the loop."""
+    S = ["s"]
+    T = lambda s_: ["t", s_]  # noqa: E731
+    for kind in ("brk", "cnt"):
+        for K in (1, 2, 4):
+            for mid in INTR_MIDS:
+                for leaf in INTR_LEAVES:
+                    row0 = ["b", "row", False,
+                            [["ifeq", "x", K, [[kind]]], T("b"), ["v", "x"]], None]
+                    t0: list = [T("R("), row0, T(")R")]
+                    if leaf == "root-loop":
+                        t0 = [T("R("), ["for", "x", 4, [row0, T(";")]], T(")R")]
+                    prog: dict[str, list] = {"t0": t0}
+                    parent = "t0"
+                    if mid != "none":
+                        body = {
+                            "absent": None,
+                            "pass": [S],
+                            "wrap-after": [S, T(")m")],
+                            "own-interrupt": [["ifeq", "x", 3, [["cnt"]]], S, T(")m")],
+                            "twice": [S, T("+"), S],
+                        }[mid]
+                        t1: list = [["x", "t0"], T("~1~")]
+                        if body is not None:
+                            t1.append(["b", "row", False, body, None])
+                        prog["t1"] = t1
+                        parent = "t1"
+                    call = [T("["), S, T("]")]
+                    lbody = {
+                        "loop": [["for", "x", 4, call]],
+                        "loop+after": [["for", "x", 4, call], T("|"), S, T("|"), S],
+                        "twice-per-iteration": [["for", "x", 4, [T("["), S, T("|"), S, T("]")]]],
+                        "nested-loops": [["for", "y", 2, [["for", "x", 3, call], T("/"), S]]],
+                        "root-loop": [T("<"), S, T(">")],
+                        "loop-then-loop": [["for", "x", 4, call], T("|"), ["for", "x", 2, call]],
+                    }[leaf]
+                    prog["t2"] = [["x", parent], T("~2~"), ["b", "row", False, lbody, None]]
+                    yield prog, "t2", f"{kind}/{K}/{mid}/{leaf}"
+
+
+def _fam_intr(r: Runner, spec: dict, ctx: Ctx) -> None:
+    last = None
+    for idx, (prog, entry, label) in enumerate(intr_cases()):
+        if idx % spec["n"] != spec["i"]:
+            continue
+        r.case("intr", prog, entry)
+        E = M.expected(prog, entry, DATA)
+        ctx.count("intr_supers_after_interrupt", max(0, E.stats["supers"] - 1))
+        ctx.seen("intr_shapes", "/".join(label.split("/")[2:]))
+        last = (prog, entry, label)
+    if last:
+        ctx.sample({"family": "intr", "label": last[2], "sources": M.emit(last[0]), "entry": last[1],
+                    "expected": M.expected(last[0], last[1], DATA).sig()})
+
+
+# ---------------------------------------------------------------------------
 # histories: several renders of DIFFERENT entries on ONE environment
 # ---------------------------------------------------------------------------
 
@@ -1882,7 +2092,7 @@ def hist_cases(rng: random.Random, tier: str) -> Iterator[tuple[dict, list[str]]
     plus seeded triples / quadruples."""
     q = tier == "quick"
     c0s = HIST_C0 if q else CONFIGS
-    c1s = HIST_C1 if q else CONFIGS
+    c1s = HIST_C1 if q else CONFIGS[::2]
     for c0 in c0s:
         for c1 in c1s:
             prog, entries = hist_universe(c0, c1)
@@ -1927,7 +2137,8 @@ def _fam_hist(r: Runner, spec: dict, ctx: Ctx) -> None:
 
 FAMILIES = {"exh": _fam_exh, "ctl": _fam_ctl, "struct": _fam_struct, "cyc": _fam_cyc,
             "entry": _fam_entry, "samp": _fam_samp, "exh4": _fam_exh4, "hist": _fam_hist, "blank": _fam_blank,
-            "cont": _fam_cont, "rel": _fam_rel}
+            "cont": _fam_cont, "rel": _fam_rel,
+            "intr": _fam_intr}
 
 # ---------------------------------------------------------------------------
 # framework interface
@@ -1942,7 +2153,7 @@ def shards(tier: str, seed: int) -> list[dict[str, Any]]:  # noqa: ARG001
         specs.append({"kind": "exh", "i": i, "n": n})
     n = 1 if q else 12
     for i in range(n):
-        specs.append({"kind": "samp", "i": i, "n": n, "count": 1600 if q else 30000})
+        specs.append({"kind": "samp", "i": i, "n": n, "count": 1600 if q else 20000})
     n = 2 if q else 8
     for i in range(n):
         specs.append({"kind": "entry", "i": i, "n": n})
@@ -1959,9 +2170,10 @@ def shards(tier: str, seed: int) -> list[dict[str, Any]]:  # noqa: ARG001
     for i in range(2):
         specs.append({"kind": "blank", "i": i, "n": 2})
     specs.append({"kind": "cont", "i": 0, "n": 1})
+    specs.append({"kind": "intr", "i": 0, "n": 1})
     n = 2 if q else 8
     for i in range(n):
-        specs.append({"kind": "rel", "i": i, "n": n, "count": 350 if q else 6000})
+        specs.append({"kind": "rel", "i": i, "n": n, "count": 350 if q else 4000})
     if not q:
         for i in range(32):
             specs.append({"kind": "exh4", "i": i, "n": 32})
@@ -1982,14 +2194,16 @@ def floors(tier: str) -> dict[str, int]:
         "cases_entry": 2_000 if q else 20_000,
         "cases_struct": 1_000,
         "cases_entry_after_chain": 800 if q else 8_000,
-        "histories": 7_000 if q else 200_000,
+        "histories": 7_000 if q else 120_000,
         "cases_blank": 2_000,
-        "cases_cont": 400,
-        "cont_hidden_defects": 200,
-        "cont_super_through_container": 100,
-        "set:containers": 15,
-        "rel_roots": 600 if q else 40_000,
-        "rel_comparisons": 12_000 if q else 700_000,
+        "cases_cont": 600,
+        "cont_hidden_defects": 350,
+        "cont_super_through_container": 200,
+        "cases_intr": 140,
+        "intr_supers_after_interrupt": 300,
+        "set:containers": 23,
+        "rel_roots": 600 if q else 25_000,
+        "rel_comparisons": 12_000 if q else 500_000,
         "rel_roots_block_in_loop": 150,
         "set:rel_features": 11,
         "blank_sole_content_overridden": 800,
@@ -2001,7 +2215,7 @@ def floors(tier: str) -> dict[str, int]:
         "spelling_cases_quoted_name": 4_000 if q else 50_000,
         "path_named_chains": 3_000 if q else 50_000,
         "path_named_cyclic": 500,
-        "path_named_histories": 1_000 if q else 30_000,
+        "path_named_histories": 1_000 if q else 20_000,
         "auto_escape_cases": 8_000 if q else 100_000,
         "auto_escape_supers_checked": 3_000 if q else 50_000,
         "histories_mixing_required_error_and_output": 1_000 if q else 20_000,
